@@ -940,7 +940,7 @@ func eventStreamLabelAfterRefusals(c *Ctx) {
 
 // cleanupBodyOrder: the application/graphql body is tested for URL encoding after the query= prefix is gone.
 func cleanupBodyOrder(c *Ctx) {
-	c.R.Rule("body-prefix-stripped-before-escape-test", "transport.cleanupBody: the string tested for the %-encoded opening brace is the result of stripping the query= prefix (a body with both would otherwise never be unescaped)", 1)
+	c.R.Rule("body-prefix-stripped-before-escape-test", "transport.cleanupBody: where it strips the query= prefix off its parameter, the string tested for the %-encoded opening brace is not the parameter as it came in (a body with both would otherwise never be unescaped)", 1)
 	fn := c.fn(pkgTransport, "cleanupBody")
 	if fn == nil {
 		return
@@ -950,9 +950,22 @@ func cleanupBodyOrder(c *Ctx) {
 		if k, ok := an.ConstString(call.Common().Args[1]); !ok || !strings.HasPrefix(k, "%") {
 			continue
 		}
+		// the function strips a prefix off its parameter somewhere (TrimPrefix, CutPrefix): the test must not look at the
+		// parameter as it came in
+		strips := false
+		for _, k := range an.CallsIn(fn, func(_ ssa.CallInstruction, ci an.CalleeInfo) bool {
+			return ci.FullName() == "strings.TrimPrefix" || ci.FullName() == "strings.CutPrefix"
+		}) {
+			if _, isP := an.Strip(k.Common().Args[0]).(*ssa.Parameter); isP {
+				strips = true
+			}
+		}
+		if !strips {
+			continue
+		}
 		n++
-		src, ok := an.Strip(call.Common().Args[0]).(*ssa.Call)
-		c.R.Check(ok && an.CalleeOf(src).FullName() == "strings.TrimPrefix", "cleanupBody/escape-test", c.ipos(call), "tests the stripped body", "the test for a URL-encoded body looks at the body before the query= prefix was removed: `query=%7B…` does not start with %7B, stays encoded, and is answered as a parse error although it names a valid operation")
+		_, raw := an.Strip(call.Common().Args[0]).(*ssa.Parameter)
+		c.R.Check(!raw, "cleanupBody/escape-test", c.ipos(call), "tests the stripped body", "the test for a URL-encoded body looks at the body before the query= prefix was removed: `query=%7B…` does not start with %7B, stays encoded, and is answered as a parse error although it names a valid operation")
 	}
 	if n == 0 {
 		c.R.Note("body-prefix-stripped-before-escape-test/examined", "-", "cleanupBody has no test for a %-encoded prefix")
